@@ -148,6 +148,7 @@ class SimFI:
         self.behaviour_fn = None         # callable(fi, seen) -> behaviour for a PROFRQ
         self.acct_fn = None              # callable(fi, seen) -> ACCTINFORS spec (list) or ('error', code)
         self.stmt_status_fn = None
+        self.reject_fn = None            # callable(fi, header, body) -> True to answer HTTP 400
         self.frozen = False              # probe clones do not mutate
         self.trailing = True
         self.msgsets = ALL_MSGSETS
@@ -198,6 +199,9 @@ class SimFI:
             seen.error = f"{type(e).__name__}: {e}"
             return HttpResponse(400, "Bad Request", [("Content-Type", "text/plain")], b"bad request")
         version = hdr["_version"]
+        if self.reject_fn is not None and self.reject_fn(self, hdr, req.body):
+            seen.rejected = True
+            return HttpResponse(400, "Bad Request", [("Content-Type", "text/plain")], b"unsupported OFX version or format")
         now = datetime.datetime.fromtimestamp(self.sim.now_us / 1e6, UTC).replace(microsecond=0)
         msgs = [sonrs_doc(now, self.org, self.fid)]
         raw_override = None
@@ -403,6 +407,7 @@ class SimFI:
         c.behaviour_fn = lambda fi, seen: behaviour
         c.acct_fn = None
         c.stmt_status_fn = None
+        c.reject_fn = None
         for url in sorted({self.prof_url, self.svc_url}):
             scheme, host, port, target = url_parts_q(url)
             net.register(scheme, host, port, c.handle, target)
